@@ -240,6 +240,38 @@ example : ((([0, 1, 1, 2, 0, 2, 0, 1, 0, 2, 0, 1, 0, 0]).foldl
       (fun (o : Option Pool) t => o.bind (·.step t)) (some (Pool.init 1 2 [5, 6, 7]))).map
       (fun p => (p.allDone, p.handled))) = some (true, [[5, 7], [6]]) := by decide
 
+
+/-- the *seeded* destructor "for each worker: produce one poison, then join it" (instead of all poisons first, then all
+joins, as `~ThreadPool` does and `Pool.step` models).  `sent` = poisons produced so far; everything else is `Pool.step`. -/
+def stepJoinEach (p : Pool) (sent : Nat) (tid : Nat) : Option (Pool × Nat) :=
+  match tid with
+  | 0 =>
+    match p.todo with
+    | x :: rest => if p.q.length < p.cap then some ({ p with q := p.q ++ [x], todo := rest }, sent) else none
+    | [] =>
+      if sent = p.joined then
+        if sent < p.wpc.length ∧ p.q.length < p.cap then some ({ p with q := p.q ++ [.poison] }, sent + 1) else none
+      else match p.wpc[p.joined]? with
+        | some .finished => some ({ p with joined := p.joined + 1 }, sent)
+        | _ => none
+  | i + 1 => (p.step (i + 1)).map (fun p' => (p', sent))
+
+/-- **pool_join_each_deadlocks** (negation witness for the clause "ThreadPool poisons each worker and joins; no thread blocks
+forever", `decide`): `pool_exactly_once` depends on *all* poisons being produced before the first join.  With the
+poison-then-join-per-worker destructor, two workers and no request: both workers start, the destructor produces the first
+poison, worker 2 takes it and finishes, the destructor joins worker 1 — which waits on the empty queue for ever.  No thread
+is enabled and the pool is not done. -/
+theorem pool_join_each_deadlocks :
+    ((([1, 2, 0, 2] : List Nat).foldl
+        (fun (o : Option (Pool × Nat)) t => o.bind (fun s => stepJoinEach s.1 s.2 t))
+        (some ({ Pool.init 1 2 [] with todo := [] }, 0))).map
+      (fun s => ((List.range 3).all (fun t => (stepJoinEach s.1 s.2 t).isNone), s.1.allDone, s.1.joined, s.2)))
+      = some (true, false, 0, 1)
+    ∧ -- the same schedule prefix under the real order (both poisons first) leaves the blocked worker enabled
+    ((([1, 2, 0, 2, 0] : List Nat).foldl
+        (fun (o : Option Pool) t => o.bind (·.step t)) (some (Pool.init 1 2 []))).map
+      (fun p => (p.step 1).isSome)) = some true := by decide
+
 end pool
 
 /-! ## Part 3: `util::stream::Chain` (util/stream/chain.hh, chain.cc)
